@@ -557,7 +557,18 @@ class DeserializationMethodVisitor(
                 settings.errors.unexpected_property,
             )
 
-        return self._factory(factory, dict, validation=False)
+        def wrapper(
+            constraints: Optional[Constraints], validators: Sequence[Validator]
+        ) -> DeserializationMethod:
+            # validators not bound to a class (field / Annotated metadata, `validators`
+            # argument) have no dependencies to gate them: they validate the built object
+            unbound = [v for v in validators if not hasattr(v, "owner")]
+            if not unbound:
+                return factory(constraints, validators)
+            bound = [v for v in validators if hasattr(v, "owner")]
+            return ValidatorMethod(factory(constraints, bound), unbound, self.aliaser)
+
+        return self._factory(wrapper, dict, validation=False)
 
     def primitive(self, cls: Type) -> DeserializationMethodFactory:
         def factory(constraints: Optional[Constraints], _) -> DeserializationMethod:
